@@ -183,15 +183,15 @@ func c41Witness(ch *fix.Chain, pool []*pkey) bool {
 	return !isTrue(n.Call(authAddr, "verifyToken", aVerifyToken(app, D, "f", 1), sg(2)))
 }
 
-func TestC41_AuthHistory(t *testing.T)      { runC41(t, c41Profiles["general"], 300, 10000) }
-func TestC41_DelegationExpiry(t *testing.T) { runC41(t, c41Profiles["expiry"], 300, 10000) }
+func TestC41_AuthHistory(t *testing.T)      { runC41(t, c41Profiles["general"], 300, 6000) }
+func TestC41_DelegationExpiry(t *testing.T) { runC41(t, c41Profiles["expiry"], 300, 6000) }
 
 func runC41(t *testing.T, prof c41Profile, quick, thorough int) {
 	ch, done := newLedger(t)
 	defer done()
 	pool := keyPool(10)
 	ev := harn.For("C41")
-	ev.Rule("stateful histories (rapid t.Repeat, ~30 steps) over the real auth+ontid native contracts: 4 registered ONT IDs " +
+	ev.Rule("stateful histories (rapid t.Repeat, ~45-70 steps) over the real auth+ontid native contracts: 4 registered ONT IDs " +
 		"(1-2 keys, zoo key kinds) + 1 unregistered, 2 app contracts, roles/functions from small alphabets; actions initContractAdmin " +
 		"(from the contract context), transfer, assignFuncsToRole, assignOntIDsToRole, delegate(period, level), withdraw, advance time " +
 		"(incl. exactly to expire-1/expire/expire+1), ontid key revocation, verifyToken(caller, fn, keyNo, signer set); ~70% of actions " +
@@ -199,10 +199,17 @@ func runC41(t *testing.T, prof c41Profile, quick, thorough int) {
 		"at least one verifyToken=true and at least one role-based verifyToken=false under a witnessed key. Distinct: different action logs.")
 	ev.Assume("the sandbox call (SignedAddr = chosen signer set, commit on success, reset on error) is how a transaction reaches a native contract")
 	ev.Assume("function names are non-empty (the contract drops empty names), key numbers < 2^32, block times before 2100-01-01 (permanent-token expiry)")
-	for _, f := range [][2]string{{"verifyToken:true-direct", "verifyToken"}, {"verifyToken:true-delegated", "verifyToken"},
-		{"verifyToken:false-expired", "verifyToken"}, {"verifyToken:false-norole", "verifyToken"}, {"verifyToken:false-nowitness", "verifyToken"}} {
-		ev.Floor(f[0], f[1], 0.02)
+	// floors for the classes the non-triviality rule and the mutants rely on; the two profiles run
+	// in separate processes, the general one reaches delegations later and less often
+	dlgFloor := 0.01
+	if prof.preseed {
+		dlgFloor = 0.03
 	}
+	ev.Floor("verifyToken:true-direct", "verifyToken", 0.05)
+	ev.Floor("verifyToken:true-delegated", "verifyToken", dlgFloor)
+	ev.Floor("verifyToken:false-expired", "verifyToken", dlgFloor/2)
+	ev.Floor("verifyToken:false-norole", "verifyToken", 0.05)
+	ev.Floor("verifyToken:false-nowitness", "verifyToken", 0.05)
 	ev.Floor("delegate:ok", "delegate", 0.15)
 	ev.Floor("delegate:unauth-attempt", "delegate", 0.05)
 	ev.Floor("withdraw:ok", "withdraw", 0.10)
@@ -598,6 +605,7 @@ func runC41(t *testing.T, prof c41Profile, quick, thorough int) {
 					signers = sigOf(from, keyNo)
 				} else {
 					ev.Class("delegate:unauth-attempt")
+					ev.Class("admin:unauth-attempt")
 					to = uni(rt, "to", c41NIDs)
 					role = pickFrom(rt, "role", c41Roles)
 					switch uni(rt, "badKind", 4) {
@@ -694,6 +702,7 @@ func runC41(t *testing.T, prof c41Profile, quick, thorough int) {
 					keyNo = goodKey(initiator, "keyNo")
 					signers = sigOf(initiator, keyNo)
 				} else if len(all) > 0 && rapid.Bool().Draw(rt, "existing") {
+					ev.Class("admin:unauth-attempt")
 					x := all[uni(rt, "which", len(all))]
 					dele, role = x.to, x.d.role
 					if rapid.Bool().Draw(rt, "notRoot") { // another identity (maybe also a role holder) with a proper witness
@@ -810,6 +819,9 @@ func runC41(t *testing.T, prof c41Profile, quick, thorough int) {
 				} else {
 					id = uni(rt, "id", c41NIDs)
 					fn = pickFrom(rt, "fnAny", c41Fns)
+				}
+				if len(m.usableKeys(id)) == 0 && pct(rt, "keylessAgain") < 75 { // unregistered / fully revoked callers stay a minority
+					id = uni(rt, "idWithKey", c41NReg)
 				}
 				var keyNo uint64
 				var signers []common.Address
